@@ -93,6 +93,19 @@ type checker struct {
 	extraCov  map[string]interface{}
 	violation string // replay path
 	violClass string
+	plan      plan
+}
+
+// timingClass: failures that need two goroutines to execute between scheduling points at
+// the same time (the Go runtime's own detection of unsynchronised map access, a race
+// report). The simulator decides the order of scheduling points, not the real overlap of
+// the code between them, so such a failure cannot be forced by replaying a schedule.
+func timingClass(class string) bool {
+	return class == "crash/concurrent-map-access" || class == "crash/data-race"
+}
+
+func sameClass(got, want string) bool {
+	return got == want || (got != "" && timingClass(got) && timingClass(want))
 }
 
 func (c *checker) knownSigs() string {
@@ -157,7 +170,11 @@ func (c *checker) handle(ph phase, outs []workerOutcome) bool {
 			}
 			// the run in flight killed the process: recover its replay file and schedule
 			class, msg := crashClass(o)
-			raw := c.recoverCrash(ph, o.LastSeed, class, msg)
+			if timingClass(class) && ph.Mode != "race" && !c.isKnown(class) {
+				c.reportTiming(ph, o.LastSeed, class, msg)
+				return true
+			}
+			raw, _ := c.recoverCrash(ph, o.LastSeed, class, msg, false)
 			viols = append(viols, viol{o.LastSeed, raw, class})
 		}
 	}
@@ -178,13 +195,14 @@ func (c *checker) handle(ph phase, outs []workerOutcome) bool {
 
 // recoverCrash re-runs a single seed with the replay file and the schedule streamed to
 // disk, so that a run that ends by killing the process still yields a replay file.
-func (c *checker) recoverCrash(ph phase, seed uint64, class, msg string) json.RawMessage {
+func (c *checker) recoverCrash(ph phase, seed uint64, class, msg string, tolerant bool) (json.RawMessage, bool) {
 	ph2 := ph
 	ph2.Extra = map[string]string{}
 	for k, v := range ph.Extra {
 		ph2.Extra[k] = v
 	}
 	var lastErr string
+	var cleanDoc map[string]interface{}
 	// first alone; if the run is clean then, state kept across calls of the code under test
 	// may be involved: repeat with the preceding seeds as a prelude
 	for _, prelude := range []uint64{0, 1, 2, 4, 8, 16, 32} {
@@ -227,6 +245,12 @@ func (c *checker) recoverCrash(ph phase, seed uint64, class, msg string) json.Ra
 		reproduced := o.Summary == nil || o.Violation != nil
 		if !reproduced && ph.Mode != "race" {
 			lastErr = fmt.Sprintf("ran clean when repeated with a prelude of %d seeds", prelude)
+			if n, ok := doc["seed"].(json.Number); ok && n.String() == strconv.FormatUint(seed, 10) && cleanDoc == nil {
+				cleanDoc = doc
+			}
+			if tolerant && prelude >= 2 {
+				break
+			}
 			continue
 		}
 		if n, ok := doc["seed"].(json.Number); ok && n.String() != strconv.FormatUint(seed, 10) && ph.Mode != "race" {
@@ -240,10 +264,55 @@ func (c *checker) recoverCrash(ph phase, seed uint64, class, msg string) json.Ra
 			doc["prelude"] = json.Number(strconv.FormatUint(prelude, 10))
 		}
 		doc["violation"] = map[string]interface{}{"class": class, "message": msg}
-		return encodeGeneric(doc)
+		return encodeGeneric(doc), true
+	}
+	if tolerant && cleanDoc != nil {
+		cleanDoc["violation"] = map[string]interface{}{"class": class, "message": msg}
+		return encodeGeneric(cleanDoc), false
 	}
 	die2("phase %s: seed %d killed the engine process (%s: %s) but could not be reproduced in a diagnostic re-run (%s) — refusing to report", ph.Name, seed, class, msg, lastErr)
-	return nil
+	return nil, false
+}
+
+// reportTiming reports a failure of a timing class that ended a simulated run. If the
+// diagnostic re-run reproduces it, it is reported like any other crash. Otherwise its
+// workload is repeated free-running under the race detector (the plan's race phase), and
+// if even that stays quiet the runtime's own message is reported with the workload as the
+// replay file, marked flaky: the abort itself is sound evidence of unsynchronised access.
+func (c *checker) reportTiming(ph phase, seed uint64, class, msg string) {
+	fmt.Printf("phase %s: seed %d ended the engine process with %s (a timing class); diagnosing\n", ph.Name, seed, class)
+	raw, reproduced := c.recoverCrash(ph, seed, class, msg, true)
+	if reproduced {
+		c.report(ph, raw, class, seed)
+		return
+	}
+	doc, _ := decodeGeneric(raw)
+	delete(doc, "tape")
+	if rph, ok := c.plan.phase("race", c.tier); ok {
+		doc["violation"] = map[string]interface{}{"class": "crash/data-race", "message": msg}
+		cand := encodeGeneric(doc)
+		for attempt := 0; attempt < 3; attempt++ {
+			if c.rc.evalCandidatesRepeated(rph, cand, "crash/data-race") {
+				c.report(rph, cand, "crash/data-race", seed)
+				return
+			}
+		}
+		ph = rph
+	}
+	doc["violation"] = map[string]interface{}{"class": class, "message": msg}
+	doc["replay_phase"] = ph.Name
+	doc["property"] = c.prop
+	doc["flaky"] = true
+	note := "the Go runtime aborted a simulated run of this workload: two goroutines were inside the code between scheduling points at the same time. " +
+		"A schedule replay cannot force that overlap; the replay repeats the workload (not minimised) and may need several attempts"
+	doc["note"] = note
+	path, err := writeReplay(c.prop, encodeGeneric(doc), fmt.Sprintf("%s-seed%d", sanitize(class), seed))
+	if err != nil {
+		die2("cannot write replay: %v", err)
+	}
+	fmt.Printf("violation class: %s\n%s\n%s\n", class, msg, note)
+	fmt.Printf("VIOLATION property=%s replay=%s\n", c.prop, path)
+	c.violation, c.violClass = path, class
 }
 
 func (c *checker) report(ph phase, raw json.RawMessage, class string, seed uint64) {
@@ -327,7 +396,7 @@ func (rc *runCtx) evalCandidatesRepeated(ph phase, raw json.RawMessage, class st
 		raws[i] = raw
 	}
 	for _, r := range rc.evalCandidates(ph, raws, class) {
-		if r.Class == class {
+		if sameClass(r.Class, class) {
 			return true
 		}
 	}
@@ -505,7 +574,7 @@ func runCheck(prop, tier string) int {
 		die2("%v", err)
 	}
 	defer rc.cleanup()
-	c := &checker{rc: rc, prop: prop, tier: tier, seed: seed, t0: t0, known: loadKnown(), knownSeen: map[string]int64{}, extraCov: map[string]interface{}{}}
+	c := &checker{rc: rc, prop: prop, tier: tier, seed: seed, t0: t0, known: loadKnown(), knownSeen: map[string]int64{}, extraCov: map[string]interface{}{}, plan: plan}
 	rc.known = c.knownSigs()
 	fmt.Printf("check %s %s: VERIF_SEED=%d build=%s\n", prop, tier, seed, info.Key)
 	code := plan.run(c)
@@ -567,7 +636,7 @@ func runReplay(path string) int {
 	n := 1
 	if ph.Mode == "race" {
 		n = 32
-	} else if prop == "C07" {
+	} else if fl, _ := doc["flaky"].(bool); fl || prop == "C07" {
 		n = 12
 	}
 	raws := make([]json.RawMessage, n)
@@ -579,7 +648,7 @@ func runReplay(path string) int {
 		if !r.Ran {
 			continue
 		}
-		if r.Class == class && class != "" {
+		if class != "" && sameClass(r.Class, class) {
 			fmt.Printf("replay attempt %d: reproduced %s\n%s\n", i+1, r.Class, r.Message)
 			for _, l := range r.Trace {
 				fmt.Println("  " + l)
